@@ -5,6 +5,7 @@ mod c06;
 mod c07;
 mod c08;
 mod c12;
+mod c13;
 mod c16;
 mod c17;
 mod c19;
@@ -25,6 +26,7 @@ fn main() {
         "c07" => c07::run(&args[2..]),
         "c08" => c08::run(&args[2..]),
         "c12" => c12::run(&args[2..]),
+        "c13" => c13::run(&args[2..]),
         "c16" => c16::run(&args[2..]),
         "c17" => c17::run(&args[2..]),
         "c19" => c19::run(&args[2..]),
